@@ -322,7 +322,7 @@ package badger
 //@   assert[lsm-not-found] before return : called(isDeletedOrExpired#2) && rerr == nil ==> !(ret(get#1).Value == nil && ret(get#1).Meta == 0) && !gone(ret(get#1).Meta, ret(get#1).ExpiresAt, now)
 //@   assert[lsm-item] before return : called(SafeCopy#1) ==> item.version == ret(get#1).Version && item.meta == ret(get#1).Meta && item.userMeta == ret(get#1).UserMeta && item.expiresAt == ret(get#1).ExpiresAt && item.vptr == ret(SafeCopy#1)
 //@   assert[lsm-value] before call SafeCopy : bytes(arg1) == bytes(ret(get#1).Value)
-//@   assigns everything
+//@   assigns inferred
 
 // ---- managed mode (C36) ----
 
@@ -360,7 +360,7 @@ package badger
 // sends nothing; the end-of-transaction entry carries exactly the commit timestamp; when the
 // request cannot be sent the commit timestamp is marked done and the error is returned.
 //@ func (*Txn).commitAndSend
-//@   props C03 C36
+//@   props C03 C36 C27
 //@   light
 //@   assert[lock-before-ts] before call newCommitTs : held(txn.db.orc.writeChLock) && arg0 == txn.db.orc && arg1 == txn
 //@   assert[lock-until-sent] before call sendToWriteCh : held(txn.db.orc.writeChLock) && !ret1(newCommitTs#1)
@@ -368,6 +368,7 @@ package badger
 //@   assert[fin-value] before call FormatUint : arg0 == ret0(newCommitTs#1) && arg1 == 10
 //@   assert[done-on-error] before call doneCommit : arg1 == ret0(newCommitTs#1)
 //@   assert[conflict-sends-nothing] before return : ret1(newCommitTs#1) ==> result1 == ErrConflict && !called(sendToWriteCh#1)
+//@   assert[duplicates-before-pending] before call processEntry#1 : arg0 == txn.duplicateWrites[rangeindex#3 + 1]
 //@   assert[send-error-returned] before return : called(sendToWriteCh#1) && ret1(sendToWriteCh#1) != nil ==> called(doneCommit#1) && result1 == ret1(sendToWriteCh#1)
 
 // ---- DropPrefix (C29): "no key starting with the prefix" is a statement about user keys ----
@@ -459,3 +460,23 @@ package badger
 // Option copies: set from the caller's Options when the structure is created and never changed
 // afterwards (the only later store, lf.opt = vlog.opt in valueLog.open, copies the same value).
 //@ stable badger.DB.opt badger.valueLog.opt badger.logFile.opt badger.memTable.opt
+
+// ---- sequences (C30) ----
+
+// A lease that could not be committed hands nothing out: the in-memory counters are untouched
+// whenever updateLease fails (db.Update may run the closure and still return an error, e.g.
+// ErrConflict when another Sequence object on the same key committed first).
+//@ func (*Sequence).updateLease
+//@   props C30
+//@   requires seq.db != nil
+//@   ensures[failed-lease-changes-nothing] result != nil ==> seq.next == old(seq.next) && seq.leased == old(seq.leased)
+//@   assigns everything
+
+//@ func (*Sequence).Next
+//@   props C30
+//@   requires seq.db != nil
+//@   ensures[error-hands-out-nothing] result1 != nil ==> result0 == 0 && seq.next == old(seq.next) && seq.leased == old(seq.leased)
+//@   ensures[from-lease] old(seq.next) < old(seq.leased) ==> result1 == nil && result0 == old(seq.next) && seq.leased == old(seq.leased)
+//@   ensures[increasing] result1 == nil ==> seq.next == result0 + 1
+//@   ensures[unlocked] !held(seq.lock)
+//@   assigns everything
